@@ -164,11 +164,12 @@ theorem maxLikeInf_perm_invariant (Q Φ : ℝ → ℝ) (opt : (ℝ × ℝ → Op
     (h : d₁.Perm d₂) : maxLikeInf Q Φ opt d₁ = maxLikeInf Q Φ opt d₂ :=
   WoehlerMaxLike.maxLikeInf_perm Q Φ opt h
 
-/-- `MaxLikeFull` (no user-fixed parameters; the code's own fixed parameters included: `SD = 0`, `TS = 1` without run-outs,
+/-- `MaxLikeFull` (no user-fixed parameters; optimisation variables = parameters in units of their start value, or of 1 where
+the start value is 0 (`relScale`), started at `fullStart`; the code's own fixed parameters included: `SD = 0`, `TS = 1` without run-outs,
 `TS` of the pearl chain with fewer than two mixed levels): all loads multiplied by `c > 0`, whatever the optimiser does.
 `ND`: without run-outs the code reports `SD = 0` and evaluates the start `ND` at the fixed load 0.1, so it is claimed for
 data with run-outs only. -/
-theorem maxLikeFull_load_scale (Q Φ : ℝ → ℝ) (opt : (Curve ℝ → Option ℝ) → Curve ℝ) {c : ℝ} (hc : 0 < c)
+theorem maxLikeFull_load_scale (Q Φ : ℝ → ℝ) (opt : (Curve ℝ → Option ℝ) → Curve ℝ → Curve ℝ) {c : ℝ} (hc : 0 < c)
     (d : List (Test ℝ)) (hpos : ∀ t ∈ d, 0 < t.load) :
     (maxLikeFull Q Φ opt (scaleLoad c d)).SD = c * (maxLikeFull Q Φ opt d).SD ∧
     (maxLikeFull Q Φ opt (scaleLoad c d)).TS = (maxLikeFull Q Φ opt d).TS ∧
@@ -177,7 +178,7 @@ theorem maxLikeFull_load_scale (Q Φ : ℝ → ℝ) (opt : (Curve ℝ → Option
     (runouts d ≠ [] → (maxLikeFull Q Φ opt (scaleLoad c d)).ND = (maxLikeFull Q Φ opt d).ND) :=
   WoehlerMaxLike.maxLikeFull_load_scale Q Φ opt hc d hpos
 
-theorem maxLikeFull_cycle_scale (Q Φ : ℝ → ℝ) (opt : (Curve ℝ → Option ℝ) → Curve ℝ) {c : ℝ} (hc : 0 < c)
+theorem maxLikeFull_cycle_scale (Q Φ : ℝ → ℝ) (opt : (Curve ℝ → Option ℝ) → Curve ℝ → Curve ℝ) {c : ℝ} (hc : 0 < c)
     (d : List (Test ℝ)) (hpos : ∀ t ∈ d, 0 < t.cycles) (hload : ∀ t ∈ d, 0 < t.load)
     (hne : (finiteZone (irrelevantRunoutsDropped d)).filter (·.fracture) ≠ []) :
     (maxLikeFull Q Φ opt (scaleCycles c d)).k1 = (maxLikeFull Q Φ opt d).k1 ∧
@@ -187,7 +188,7 @@ theorem maxLikeFull_cycle_scale (Q Φ : ℝ → ℝ) (opt : (Curve ℝ → Optio
     (maxLikeFull Q Φ opt (scaleCycles c d)).TS = (maxLikeFull Q Φ opt d).TS :=
   WoehlerMaxLike.maxLikeFull_cycle_scale Q Φ opt hc d hpos hload hne
 
-theorem maxLikeFull_perm_invariant (Q Φ : ℝ → ℝ) (opt : (Curve ℝ → Option ℝ) → Curve ℝ) {d₁ d₂ : List (Test ℝ)}
+theorem maxLikeFull_perm_invariant (Q Φ : ℝ → ℝ) (opt : (Curve ℝ → Option ℝ) → Curve ℝ → Curve ℝ) {d₁ d₂ : List (Test ℝ)}
     (h : d₁.Perm d₂) : maxLikeFull Q Φ opt d₁ = maxLikeFull Q Φ opt d₂ :=
   WoehlerMaxLike.maxLikeFull_perm Q Φ opt h
 
@@ -288,28 +289,32 @@ theorem likelihood_invariant_under_scaling (Φ : ℝ → ℝ) {c : ℝ} (hc : 0 
 abbrev LeLik := WoehlerMaxLike.LeLik
 
 /-- The contract ASSUMED of `scipy.optimize.fmin` (Nelder–Mead): the returned point is never worse than the start `x₀`
-(the start is a vertex of the initial simplex and the best vertex is kept).  `opt f` maximises `f` (in parameters
-relative to the start values, so `x₀` is the vector of ones). -/
+(the start is a vertex of the initial simplex and the best vertex is kept).  `opt f` maximises `f` from `x₀`. -/
 abbrev NeverWorseThanStart {X : Type} (x₀ : X) (opt : (X → Option ℝ) → X) : Prop := WoehlerMaxLike.NeverWorseThan x₀ opt
+
+/-- the same contract for an optimiser that is handed its start point (`MaxLikeFull`: the start vector depends on the data -
+1 for a parameter scaled by its start value, 0 for a parameter whose start value is 0) -/
+abbrev NeverWorseThanItsStart {X : Type} (opt : (X → Option ℝ) → X → X) : Prop := WoehlerMaxLike.NeverWorseThanFrom opt
 
 /- FULL STATEMENT (not provable here): `MaxLikeInf(df).analyze()` / `MaxLikeFull(df).analyze()` return parameters whose
 likelihood is ≥ the likelihood of the estimate the search starts from.
 PROVED, about the model PIPELINES `maxLikeInf` / `maxLikeFull` (reduced data, start point, objective incl. the code's fixed
-parameters and `np.abs`, post-processing - each tied to maxlike.py by the correspondence), for every optimiser honouring
-`NeverWorseThanStart`:
+parameters and `np.abs`, scaling of the optimisation variables, post-processing - each tied to maxlike.py by the
+correspondence), for every optimiser honouring the contract:
  (1) MaxLikeInf: the infinite-zone likelihood of the RESULT is ≥ that of its start `(finite_infinite_transition, 1.2)`;
- (2) MaxLikeFull: the total likelihood of the RESULT is ≥ the objective at the start vector;
+ (2) MaxLikeFull: the total likelihood of the RESULT is ≥ the objective at the start vector `fullStart`;
  (3) when nothing is fixed (run-outs, two mixed levels) and the elementary curve has non-negative entries and `ND > 0`,
-     the objective at the start vector IS the total likelihood of the elementary estimate: the result of MaxLikeFull is
-     not worse than the elementary estimate it starts from.
+     the objective at the start vector IS the total likelihood of the elementary estimate (also when some of its entries
+     are 0): the result of MaxLikeFull is not worse than the elementary estimate it starts from.
 MISSING: that scipy's `fmin` honours the contract (external code; measured per run by the oracle).  Without run-outs (3)
 does not apply and (2) holds as `-inf ≤ -inf` (`maxLikeFull_no_runouts_objective_constant`). -/
 theorem ml_not_worse_than_start_partial (Q Φ : ℝ → ℝ) (d : List (Test ℝ))
     (opt₂ : (ℝ × ℝ → Option ℝ) → ℝ × ℝ) (h₂ : NeverWorseThanStart ((1 : ℝ), (1 : ℝ)) opt₂)
-    (opt₅ : (Curve ℝ → Option ℝ) → Curve ℝ) (h₅ : NeverWorseThanStart WoehlerMaxLike.ones opt₅) :
+    (opt₅ : (Curve ℝ → Option ℝ) → Curve ℝ → Curve ℝ) (h₅ : NeverWorseThanItsStart opt₅) :
     LeLik (likInfinite Φ (irrelevantRunoutsDropped d) (transition (irrelevantRunoutsDropped d)) 1.2)
       (likInfinite Φ (irrelevantRunoutsDropped d) (maxLikeInf Q Φ opt₂ d).SD (maxLikeInf Q Φ opt₂ d).TS) ∧
-    LeLik (maxLikeFullObjective Φ (irrelevantRunoutsDropped d) (elementaryCore Q (irrelevantRunoutsDropped d)) WoehlerMaxLike.ones)
+    LeLik (maxLikeFullObjective Φ (irrelevantRunoutsDropped d) (elementaryCore Q (irrelevantRunoutsDropped d))
+        (fullStart (elementaryCore Q (irrelevantRunoutsDropped d))))
       (likTotal Φ (irrelevantRunoutsDropped d) (maxLikeFull Q Φ opt₅ d)) ∧
     (runouts (irrelevantRunoutsDropped d) ≠ [] → fewMixedLevels (irrelevantRunoutsDropped d) = false →
       (0 ≤ (elementary Q d).k1 ∧ 0 < (elementary Q d).ND ∧ 0 ≤ (elementary Q d).SD ∧ 0 ≤ (elementary Q d).TN ∧
@@ -319,11 +324,16 @@ theorem ml_not_worse_than_start_partial (Q Φ : ℝ → ℝ) (d : List (Test ℝ
   ⟨WoehlerMaxLike.maxLikeInf_not_worse Q Φ opt₂ h₂ d, WoehlerMaxLike.maxLikeFull_not_worse Q Φ opt₅ h₅ d,
     fun hr hm hw => WoehlerMaxLike.maxLikeFull_not_worse_than_elementary Q Φ opt₅ h₅ d hr hm hw⟩
 
-/-- non-vacuity: the optimiser that returns its start honours the contract -/
-example {X : Type} (x₀ : X) : NeverWorseThanStart x₀ (fun _ => x₀) := by
-  intro f
-  cases f x₀ with
-  | none => trivial
-  | some a => exact le_refl a
+/-- non-vacuity: the optimiser that returns its start honours both contracts -/
+example {X : Type} (x₀ : X) : NeverWorseThanStart x₀ (fun _ => x₀) ∧ NeverWorseThanItsStart (fun (_ : X → Option ℝ) x₀ => x₀) := by
+  refine ⟨?_, ?_⟩
+  · intro f
+    cases f x₀ with
+    | none => trivial
+    | some a => exact le_refl a
+  · intro f x
+    cases f x with
+    | none => trivial
+    | some a => exact le_refl a
 
 end PylifeVerif.C18
